@@ -230,10 +230,9 @@ func nextPath() string {
 	return fmt.Sprintf("vf/gen%d.proto", fileSeq.n)
 }
 
-// Build registers the rule set on a fresh mux in the given order. Descriptor
-// construction errors (harness bugs or schema-level invalidity) are returned
-// as err; registration outcomes are recorded in Built.
-func Build(rs *RuleSet, p Perm, extra ...larking.MuxOption) (*Built, error) {
+// Prepare builds descriptors and a fresh mux for the rule set without
+// registering any service yet.
+func Prepare(rs *RuleSet, p Perm, extra ...larking.MuxOption) (*Built, error) {
 	f, cfg := rs.File(p, nextPath())
 	fd, err := f.Build()
 	if err != nil {
@@ -267,14 +266,32 @@ func Build(rs *RuleSet, p Perm, extra ...larking.MuxOption) (*Built, error) {
 		return nil, err
 	}
 	b.Mux = mux
+	return b, nil
+}
+
+// Register registers service s of the rule set. It returns the registration
+// error and, separately, a recovered panic.
+func (b *Built) Register(s int) (error, *mon.PanicInfo) {
+	sd := b.FD.Services().ByName(protoreflect.Name(b.RS.Services[s]))
+	if sd == nil || sd.Methods().Len() == 0 {
+		return nil, nil
+	}
+	gsd := vschema.ServiceDesc(sd, b)
+	var rerr error
+	pi := mon.Catch(func() { rerr = larking.VerifRegisterService(b.Mux, gsd, struct{}{}) })
+	return rerr, pi
+}
+
+// Build registers the rule set on a fresh mux in the given order. Descriptor
+// construction errors (harness bugs or schema-level invalidity) are returned
+// as err; registration outcomes are recorded in Built.
+func Build(rs *RuleSet, p Perm, extra ...larking.MuxOption) (*Built, error) {
+	b, err := Prepare(rs, p, extra...)
+	if err != nil || b.RegPanic != nil {
+		return b, err
+	}
 	for _, s := range p.Svc {
-		sd := fd.Services().ByName(protoreflect.Name(rs.Services[s]))
-		if sd == nil || sd.Methods().Len() == 0 {
-			continue
-		}
-		gsd := vschema.ServiceDesc(sd, b)
-		var rerr error
-		pi := mon.Catch(func() { rerr = larking.VerifRegisterService(mux, gsd, struct{}{}) })
+		rerr, pi := b.Register(s)
 		if pi != nil {
 			b.RegPanic = pi
 			b.ErrSvc = s
